@@ -16,6 +16,7 @@ RULE = (
     "statements only; one final terminator; 1-4 routines. Oracle: decompile(renumber(compile(P))) is ExplorerScript "
     "(no fallback marker), parses, contains no jump statement, and every operation name of P occurs exactly once. "
     "Non-trivial = some routine has >= 2 blocks, or an elseif, or a default; distinct by AST hash."
+    ' One case in 400 is a routine of 200-1400 structures in a row followed by a short second routine. Half of the routine sets are handed over as instances of a caller-side subclass of SsbOperation.'
 )
 ASSUMPTIONS = [
     "operation names are unique per program by construction, so 'printed exactly once' is a count of the name in the parsed text",
